@@ -247,6 +247,42 @@ Definition MapIndent (bodies : list (list op)) : list op :=
 Definition new_builder (qopen qclose : N) (q : option bytes) (ind : bytes) : builder :=
   mkB [] qopen qclose q ind 0%Z false.
 
+(** * Specification vocabulary (no Go counterpart): identifier chains
+    What a qualifying call is expected to write: the chain of names, and its text. *)
+Definition render_ident (o c : N) (n : bytes) : bytes := o :: n ++ [c].
+Fixpoint render_chain (o c : N) (l : list bytes) : bytes :=
+  match l with
+  | [] => []
+  | [n] => render_ident o c n
+  | n :: rest => render_ident o c n ++ DOT :: render_chain o c rest
+  end.
+
+(* the schema component mayQualify decides on *)
+Definition qual_prefix (bs s : option bytes) : list bytes :=
+  match bs with
+  | Some q => if is_nil q then [] else [q]
+  | None => match s with Some n => if is_nil n then [] else [n] | None => [] end
+  end.
+Definition chain_of (bs s : option bytes) (top : bytes) (children : list bytes) : list bytes :=
+  qual_prefix bs s ++ top :: children.
+
+(* the chain a qualifying call emits under builder qualifier [bs] *)
+Definition emitted_chain (bs : option bytes) (o : op) : option (list bytes) :=
+  match o with
+  | OTable t => Some (chain_of bs (o_schema t) (o_name t) [])
+  | OTableResource t r => Some (chain_of bs (o_schema t) (o_name t) [r])
+  | OSchemaResource s n => Some (chain_of bs s n [])
+  | OFuncCall f _ => Some (chain_of bs (o_schema f) (o_name f) [])
+  | ORefTable c p =>
+      Some (if cross_ref bs c p then [VName (o_schema p); o_name p]
+            else chain_of bs (o_schema p) (o_name p) [])
+  | _ => None
+  end.
+
+Definition opt_name (s : option bytes) : list bytes :=
+  match s with Some n => if is_nil n then [] else [n] | None => [] end.
+
+
 (** * postgres/migrate_oss.go: typeIdent, schemaPrefix
     [quoteGo] is Go's [strconv.Quote] (the [%q] verb), an external function. *)
 Section PG.
